@@ -66,3 +66,18 @@ Print Assumptions C02_formula_RI.
 
 Example C02_nonvacuous : valid 0 1 [0] /\ valid 0 1 [0; 5/8] /\ valid 0 1 [1/8; 5/8; 1].
 Proof. repeat split; try lra; valid_tac. Qed.
+
+(* ---- executed instance (Q, extracted to OCaml and run against /repo) = the real-number functions
+   the theorems above are about: kernel-checked parametricity bridge (Bridge.v).  qL = map Q2R etc. ---- *)
+From Coq Require Import QArith Qreals.
+From PS Require Import Bridge.
+Local Close Scope Q_scope.
+Theorem C02_exec_spike_profile_py_transfer : forall (t1 t2 : list Q) (ts te m : Q) (ri : bool), qLLL (spike_profile_py QOps t1 t2 ts te m ri) = spike_profile_py ROps (qL t1) (qL t2) (Q2R ts) (Q2R te) (Q2R m) ri.
+Proof. exact spike_profile_py_transfer. Qed.
+Print Assumptions C02_exec_spike_profile_py_transfer.
+Theorem C02_exec_spike_profile_cy_transfer : forall (t1 t2 : list Q) (ts te m : Q) (ri : bool), qLLL (spike_profile_cy QOps t1 t2 ts te m ri) = spike_profile_cy ROps (qL t1) (qL t2) (Q2R ts) (Q2R te) (Q2R m) ri.
+Proof. exact spike_profile_cy_transfer. Qed.
+Print Assumptions C02_exec_spike_profile_cy_transfer.
+Theorem C02_exec_spike_spec_transfer : forall (s1 s2 : list Q) (ts te m : Q) (ri : bool), qLLL (spike_spec QOps s1 s2 ts te m ri) = spike_spec ROps (qL s1) (qL s2) (Q2R ts) (Q2R te) (Q2R m) ri.
+Proof. exact spike_spec_transfer. Qed.
+Print Assumptions C02_exec_spike_spec_transfer.
